@@ -503,7 +503,7 @@ impl World {
 
     /// What a registering signer uses: the parameters the aggregator serves for the recording
     /// epoch; when it cannot be asked (down, not published yet) the most recent ones it knows.
-    fn registration_parameters(&mut self, recording_epoch: u64) -> ProtocolParameters {
+    fn registration_parameters(&mut self, recording_epoch: u64) -> (ProtocolParameters, bool) {
         if self.agg.is_up() {
             let (status, body) = self.agg.http("GET", &format!("/aggregator/protocol-configuration/{recording_epoch}"), None);
             if status == 200
@@ -511,15 +511,17 @@ impl World {
                 && let Ok(p) = serde_json::from_value::<ProtocolParameters>(v["protocol_parameters"].clone())
             {
                 self.learned_params.insert(recording_epoch, p.clone());
-                return p;
+                return (p, true);
             }
             self.hit("probe_registration_parameters_not_served");
         }
-        self.learned_params
+        let last_known = self
+            .learned_params
             .range(..=recording_epoch)
             .next_back()
             .map(|(_, p)| p.clone())
-            .unwrap_or_else(|| self.sc.parameters())
+            .unwrap_or_else(|| self.sc.parameters());
+        (last_known, false)
     }
 
     fn sync_signer_view(&mut self, party: usize) {
@@ -740,7 +742,16 @@ impl World {
                 }
                 let recording_epoch = self.epoch + 1;
                 let stake = stake_for(&self.sc, *party, recording_epoch);
-                let params = self.registration_parameters(recording_epoch);
+                // where the operator re-configures the protocol parameters a party only creates a key
+                // once the aggregator has told it the parameters of the round (as the real signer);
+                // elsewhere the parameters never change and the last known ones are exact
+                let reconfigured_world = self.sc.faults.reconfig > 0.0;
+                let already_has_key = self.keys.get(&(*party, recording_epoch)).is_some_and(|k| !k.is_empty()) && !*new_key;
+                let params = match self.registration_parameters(recording_epoch) {
+                    (p, true) => p,
+                    (p, false) if !reconfigured_world || already_has_key => p,
+                    _ => return skip("the aggregator has not published the parameters of this registration round yet"),
+                };
                 let seed = self.sc.seed ^ self.sc.run.wrapping_mul(0x9E37);
                 let entry = self.keys.entry((*party, recording_epoch)).or_default();
                 if entry.is_empty() || *new_key {
